@@ -11,6 +11,10 @@ type Tag struct { //nolint:govet
 	Name              TagName
 	Title             string
 	Description       *string
+
+	// automatic is set for a tag made from the path of an interaction; only a tag
+	// declared by a TAG directive can be named by a Tags directive.
+	automatic bool
 }
 
 var _ json.Marshaler = &Tags{}
@@ -31,6 +35,7 @@ func newPathTag(r InteractionID) *Tag {
 		Children:          &Tags{},
 		Title:             title,
 		Name:              tagName(title),
+		automatic:         true,
 	}
 }
 
